@@ -440,6 +440,21 @@ def rule_r6(facts, col, cg=None):
                                 "exists for exactly this reason)", {})
 
 
+class _Retag5:
+    """C05.R1 instances are reported under C04.R5 here (the runner must act on wait()'s verdict and on nothing weaker)"""
+    def __init__(self, ctx):
+        self.ctx = ctx
+
+    def ok(self, rule, *a, **k):
+        self.ctx.ok("C04.R5", *a, **k)
+
+    def bad(self, rule, *a, **k):
+        self.ctx.bad("C04.R5", *a, **k)
+
+    def silent(self, rule, *a, **k):
+        self.ctx.silent("C04.R5", *a, **k)
+
+
 def run(ctx):
     facts = ctx.facts("default")
     cg = CallGraph(facts)
@@ -450,6 +465,9 @@ def run(ctx):
     rule_r3(facts, ctx)
     rule_r4(facts, ctx)
     rule_r6(facts, ctx, cg)
+    from . import c05
+    c05.rule_r1(facts, _Retag5(ctx))
+    ctx.floor("C04.R5", 10, "the multithreaded runner acts on the verdict (C05.R1 obligations)")
     from .. import controls
     controls.expect(ctx, "C04.R1", rule_r1, "stream::NCReadStream::eof", "emptiness read before liveness")
     controls.expect(ctx, "C04.R2", rule_r2, "stream::NCReadStream::eof", "count <= 2")
